@@ -828,6 +828,17 @@ def rule_copymeta(ctx) -> RuleResult:
         def sources(v, seen=()):
             """how the value v comes out of the source's own metadata: [('direct', var) | ('comp', filtered?) | ('gen', fn node, call)]"""
             out = []
+            # a copy of the value (deepcopy(v), copy.copy(v), v.copy()) carries the same entry: the clause is about WHICH entries
+            # are transferred, not about sharing (that is C12.NESTED)
+            while isinstance(v, ast.Call):
+                f = v.func
+                nm = f.attr if isinstance(f, ast.Attribute) else getattr(f, "id", None)
+                if nm in ("deepcopy", "copy") and len(v.args) == 1 and not v.keywords:
+                    v = v.args[0]
+                elif nm == "copy" and not v.args and isinstance(f, ast.Attribute):
+                    v = f.value
+                else:
+                    break
             if not isinstance(v, ast.Name) or v.id in seen:
                 return out
             for tgt, it in fl.stmt_loops:
